@@ -541,10 +541,108 @@ def check_component_case(case):
     return out
 
 
+
+# ----------------------------------------------------------------------------
+# clause 6 (generated): the round trip / split-merge is a COPY - every binary64 value survives it bit-for-bit
+# (signed zeros, infinities, NaN, subnormals, the largest finite number): "for all entry values ... returns the
+# original matrix bit-for-bit ... splitting/merging the four component planes is lossless".  The complex adjoint is
+# not part of this clause: it is formed arithmetically (w + 1j*x) and the property's bit-for-bit sentence is about
+# the real round trip and the plane split only.
+
+SPECIAL_VALUES = [0.0, -0.0, float("inf"), float("-inf"), float("nan"), 5e-324, -5e-324, 2.2250738585072014e-308,
+                  1.7976931348623157e308, -1.7976931348623157e308, 1.0, -1.0, 0.1, 3.0]
+
+
+def same_bytes(out, site, a, b, msg=""):
+    a = np.ascontiguousarray(np.asarray(a, dtype=float))
+    b = np.ascontiguousarray(np.asarray(b, dtype=float))
+    if a.shape != b.shape:
+        return out.true(site, False, f"{msg} shape {a.shape} != {b.shape}".strip())
+    ok = a.tobytes() == b.tobytes()
+    if not ok:
+        bad = np.argwhere(a.view(np.uint64) != b.view(np.uint64))
+        i = tuple(int(v) for v in bad[0])
+        out.true(site, False, f"{msg} {len(bad)} entries differ in their bit pattern, first at {i}: {a[i]!r} vs {b[i]!r}".strip())
+    return ok
+
+
+def same_values(out, site, a, b):
+    """Equality of values with NaN == NaN (sign of zero / NaN payload not distinguished): used where the embedding
+    negates components, which is a value-level statement."""
+    a, b = np.asarray(a, dtype=float), np.asarray(b, dtype=float)
+    return out.true(site, a.shape == b.shape and bool(np.array_equal(a, b, equal_nan=True)), "values differ")
+
+
+@st.composite
+def special_cases(draw, tier):
+    hi = 4 if tier == "quick" else 6
+    m, n = draw(st.integers(1, hi)), draw(st.integers(1, hi))
+    A, pa = draw(gen.qarray(m, n, draw(st.sampled_from(["generic", "int", "sparse", "zero"]))))
+    A = np.array(A, dtype=float)
+    k = draw(st.integers(1, max(1, min(6, m * n * 4))))
+    kinds = set()
+    for _ in range(k):
+        i, j, c = draw(st.integers(0, m - 1)), draw(st.integers(0, n - 1)), draw(st.integers(0, 3))
+        v = draw(st.sampled_from(SPECIAL_VALUES))
+        A[i, j, c] = v
+        kinds.add("nan" if v != v else ("inf" if abs(v) == float("inf") else ("negzero" if (v == 0 and np.signbit(v)) else
+                  ("subnormal" if 0 < abs(v) < 2.3e-308 else ("huge" if abs(v) > 1e300 else "ordinary")))))
+    return {"A": A, "kinds": sorted(kinds)}
+
+
+def check_special(case):
+    out = Out()
+    A = case["A"]
+    m, n, _ = A.shape
+    out.label(*["has_" + k for k in case["kinds"]], shape_class(m, n))
+    with np.errstate(all="ignore"):
+        ok, R = out.call("real_expand(special values)", L.utils.real_expand, Q(A))
+        if ok:
+            R = as_real(out, "real_expand(special values)", R, (4 * m, 4 * n))
+        if ok and R is not None:
+            same_values(out, "real_expand(special values):equals chi_r (NaN==NaN)", R, ref.chi_r_copy(A))
+            X = lib_contract(out, R, m, n, "real_contract(real_expand(A)) special values")
+            if X is not None:
+                same_bytes(out, "real_contract(real_expand(A)):returns A bit-for-bit incl. signed zero/inf/NaN", X, A)
+        X = lib_contract(out, ref.chi_r_copy(A), m, n, "real_contract(chi_r(A)) special values")
+        if X is not None:
+            same_bytes(out, "real_contract(chi_r(A)):returns A bit-for-bit incl. signed zero/inf/NaN", X, A)
+        Rb = lib_realp(out, A, "Realp(matrices, special values)")
+        if Rb is not None:
+            same_values(out, "Realp(matrices, special values):equals blocked chi_r (NaN==NaN)", Rb, ref.chi_r_copy(A, blocked=True))
+            for p in range(4):
+                same_bytes(out, "Realp(matrices, special values):first block column holds the planes bit-for-bit",
+                           Rb[p * m:(p + 1) * m, 0:n], A[..., p])
+        P = planes(A)
+        stored = np.hstack([P[0], P[2], P[1], P[3]])
+        ok, r = out.call("A2A0123(special values)", L.utils.A2A0123, stored)
+        if ok and out.true("A2A0123:returns four planes", isinstance(r, (tuple, list)) and len(r) == 4, f"{type(r).__name__}"):
+            for c in range(4):
+                same_bytes(out, "A2A0123(special values):planes bit-for-bit", np.asarray(r[c]), P[c], f"plane {c}")
+        ok, solver = out.call("QGMRESSolver()", L.solver.QGMRESSolver)
+        if ok:
+            ok, comp = out.call("_quat_to_components(dense, special values)", solver._quat_to_components, Q(A))
+            if ok and out.true("_quat_to_components(dense):returns four planes", len(comp) == 4, f"{len(comp)} items"):
+                for c in range(4):
+                    same_bytes(out, "_quat_to_components(dense, special values):planes bit-for-bit", np.asarray(comp[c]), P[c],
+                               f"plane {c}")
+                ok2, back = out.call("_components_to_quat(special values)", solver._components_to_quat, *comp)
+                if ok2:
+                    try:
+                        same_bytes(out, "_components_to_quat(_quat_to_components(A)):returns A bit-for-bit incl. signed zero/inf/NaN",
+                                   F(back), A)
+                    except Exception as e:  # noqa: BLE001
+                        out.true("_components_to_quat:returns a quaternion array", False, f"{type(e).__name__}: {e}"[:200])
+    out.nontrivial = any(k != "ordinary" for k in case["kinds"])
+    out.sample = {"shape": [m, n], "kinds": case["kinds"]}
+    return out
+
+
 PROPERTY = Property(
     id="C02",
     title="Real and complex embeddings are faithful *-homomorphisms with exact round trip",
-    rule=("generated clauses: min(m,n) >= 2 and at least two distinct imaginary axes carry a non-zero component of A; "
+    rule=("generated clauses: min(m,n) >= 2 and at least two distinct imaginary axes carry a non-zero component of A "
+          "(special_values_round_trip: at least one planted entry is a signed zero, infinity, NaN, subnormal or > 1e300); "
           "exhaustive unit clause: an imaginary basis unit placed in a shape with min(m,n) >= 2; exhaustive pair clause: "
           "two distinct imaginary units meeting at a matching inner index. Distinct = distinct input digest."),
     clauses=[
@@ -553,12 +651,14 @@ PROPERTY = Property(
         Clause("real_embeddings", check_real, strategy=real_cases, budget={"quick": 2400, "thorough": 20000}),
         Clause("complex_adjoint", check_adjoint, strategy=adjoint_cases, budget={"quick": 1600, "thorough": 16000}),
         Clause("component_split", check_component_case, strategy=component_cases, budget={"quick": 800, "thorough": 6000}),
+        Clause("special_values_round_trip", check_special, strategy=special_cases, budget={"quick": 1200, "thorough": 10000}),
     ],
     assumptions=[
         "oracle embeddings chi_r / chi_r_blocked / chi_c are the harness's own (qv/ref.py, derived from the Hamilton table and "
         "self-checked for the homomorphism at start-up); the library is never its own oracle",
         "numpy-quaternion dtype conversions (as_quat_array/as_float_array) are trusted",
-        "layout clauses are bit-for-bit (sign of zero not distinguished); products use the forward dot-product bound "
+        "layout clauses are bit-for-bit (sign of zero not distinguished); the special_values_round_trip clause compares the raw "
+        "64-bit patterns of round trips and plane splits (signed zeros, infinities, NaN, subnormals, largest finite numbers); products use the forward dot-product bound "
         "16*(len+4)*u*sum|partial products| against the exact rational product; norms 8*(N+8)*u relative to the exact rational norm",
         "magnitudes restricted to 10^+-60 so products and squared norms are representable (no overflow/underflow claims)",
         "documented domains only: 2-D quaternion ndarrays for real_expand, square for the adjoint, 2-D float planes or "
